@@ -18,7 +18,7 @@
      P_C05_RelayFanoutOnly     Topic.Relay on a fanout-only topic refuses
    The interest truth is (number of LIVE Subscription handles + not yet cancelled relay references) > 0: a second Cancel of an
    already cancelled handle, a RelayCancelFunc called twice and a refused Topic.Close change nothing and may announce nothing. *)
-EXTENDS Naturals, Sequences, FiniteSets, TLC, Json
+EXTENDS Integers, Sequences, FiniteSets, TLC, Json
 
 Trace == ndJsonDeserialize("trace.ndjson")
 
@@ -32,7 +32,8 @@ RetryWindow == 1001   \* announceRetry sleeps 1..1000 ms
 EmptyM == [topics |-> {}, peers |-> {}, wsubs |-> <<>>, relays |-> <<>>, kind |-> <<>>,
            conn |-> <<>>, gated |-> <<>>, held |-> <<>>, rup |-> <<>>, their |-> <<>>,
            up |-> <<>>, wf |-> <<>>, pend |-> <<>>, lost |-> <<>>,
-           bst |-> "none", btopic |-> "", bcap |-> 0, bbuf |-> <<>>, scn |-> 0, seen |-> {}, broken |-> FALSE, stale |-> {}, lostUnsub |-> {}, ctried |-> {}]
+           bst |-> "none", btopic |-> "", bcap |-> 0, bbuf |-> <<>>, scn |-> 0, seen |-> {}, broken |-> FALSE, stale |-> {}, lostUnsub |-> {}, ctried |-> {},
+           gray |-> {}, direct |-> {}, scoring |-> FALSE, graylist |-> 0]
 
 ResetM(e) ==
     LET T == ToSet(e.cfg.topics)  P == ToSet(e.cfg.peers) IN
@@ -42,7 +43,8 @@ ResetM(e) ==
      rup |-> [p \in P |-> FALSE], their |-> [p \in P |-> {}],
      up |-> [p \in P |-> FALSE], wf |-> [p \in P |-> {}],      \* wf[p] = topics p believes the node is interested in
      pend |-> <<>>, lost |-> [p \in P |-> {}],
-     bst |-> "none", btopic |-> "", bcap |-> 0, bbuf |-> <<>>, scn |-> e.scn, seen |-> {}, broken |-> FALSE, stale |-> {}, lostUnsub |-> {}, ctried |-> {}]
+     bst |-> "none", btopic |-> "", bcap |-> 0, bbuf |-> <<>>, scn |-> e.scn, seen |-> {}, broken |-> FALSE, stale |-> {}, lostUnsub |-> {}, ctried |-> {},
+     gray |-> {}, direct |-> {}, scoring |-> e.cfg.score, graylist |-> e.cfg.graylist]
 
 \* ------------------------------------------------------------------ true interest of the node
 Subs(x, t) == x.wsubs[t] + (IF x.bst = "live" /\ x.btopic = t THEN 1 ELSE 0)
@@ -71,6 +73,11 @@ Act(x, a) ==
       [] a.a = "bcancel"   -> IF x.bst = "live" THEN [x EXCEPT !.bst = "cancelled"] ELSE x
       [] a.a = "peer"      -> [x EXCEPT !.conn[a.p] = TRUE, !.rup[a.p] = TRUE, !.their[a.p] = ToSet(a.subs),
                                          !.lost[a.p] = {}, !.held[a.p] = (@ \/ a.held), !.seen = @ \cup {a.p}]
+      \* gossipsub with peer scoring: the scenario sets p's (application-specific) score; below the graylist threshold the router
+      \* answers AcceptNone for p. A direct peer is accepted whatever its score. Neither changes what the node must believe:
+      \* handleIncomingRPC does the subscription bookkeeping before it asks the router
+      [] a.a = "score"     -> [x EXCEPT !.gray = IF x.scoring /\ a.sv < x.graylist THEN @ \cup {a.p} ELSE @ \ {a.p}]
+      [] a.a = "direct"    -> [x EXCEPT !.direct = IF a.on THEN @ \cup {a.p} ELSE @ \ {a.p}]
       [] a.a = "release"   -> [x EXCEPT !.held[a.p] = FALSE]
       [] a.a = "gate"      -> [x EXCEPT !.gated[a.p] = a.on]
       [] a.a = "down"      -> [x EXCEPT !.conn[a.p] = FALSE, !.rup[a.p] = FALSE, !.their[a.p] = {}, !.lost[a.p] = {}]
@@ -215,6 +222,10 @@ Step(x, e) ==
                \cup (IF a.a = "cancel" /\ a.old /\ x0.wsubs[a.t] > 1 THEN {"cancelOldestFirst"} ELSE {})
                \cup (IF a.a = "cancel" /\ a.t \in x0.ctried /\ x0.wsubs[a.t] > 0 THEN {"cancelAfterCloseRefused"} ELSE {})
                \cup (IF a.a = "closeTopic" /\ x0.kind[a.t] # "none" /\ (Subs(x0, a.t) > 0 \/ x0.relays[a.t] > 0) THEN {"closeRefused"} ELSE {})
+               \cup (IF a.a \in {"sub", "peer"} /\ a.p \in x0.gray /\ e.scores[a.p] < x.graylist /\ (a.a = "sub" \/ a.subs # <<>>)
+                     THEN {(IF a.a = "sub" THEN "sub" ELSE "hello") \o "FromGraylisted" \o (IF a.p \in x0.direct THEN "Direct" ELSE "")} ELSE {})
+               \cup (IF a.a = "sub" /\ a.p \in ToSet(e.throttled) THEN {"subFromThrottled"} ELSE {})
+               \cup (IF a.a = "score" /\ a.p \in x0.gray /\ a.p \notin x1.gray THEN {"scoreRecovered"} ELSE {})
                \cup (IF a.a = "cancelAgain" THEN {"cancelAgain"} \cup
                         (IF Subs(x0, a.t) = 1 /\ x0.relays[a.t] = 0 /\ x0.kind[a.t] = "normal" THEN {"cancelAgain:oneLiveSiblingNoRelay"} ELSE {}) \cup
                         (IF Subs(x0, a.t) = 0 THEN {"cancelAgain:noneLive"} ELSE {}) ELSE {})
